@@ -86,6 +86,8 @@ def coq_mdef(name, d, members):
         wrap = f'(WProperty (Ok {coq_val(d.get("val"))}))'
     elif k == 'prop_raise':
         wrap = '(WProperty (Raise ValueErrorC))'
+    elif k == 'cprop_raise':
+        wrap = '(WGetter (ARaise ValueErrorC))'       # functools.cached_property whose function raises
     elif k == 'attr_obj':
         last = {}
         for i, v, _ in d['inner']:       # setattr one after the other: the last value of a member stays
@@ -207,7 +209,7 @@ def coq_case(c, r):
         oc = None if (c['args'] is None or c.get('in_init')) else c['args']
         world = [w for w in r['world'] if w[0] != 4]
         return (f'eval_case_tv {coq_world(world)} {nat(c["inst"])} {"None" if oc is None else "(Some " + toks(oc) + ")"} '
-                f'{nat(c["op"])} {coq_shape(c["shape"])} {coq_bool(bool(c.get("full")))}')
+                f'{nat(c["op"])} {coq_shape(c["shape"])} {nat(int(c.get("full") or 0))}')
     eff = effective_defs(c, r['world'], r['dir'])
     if eff is None:
         return None
@@ -267,7 +269,7 @@ def gen_tv(rng, tier):
     tvs = rng.sample(range(8), n)
     args = [20 + rng.randrange(12) for _ in range(n)]
     kind = rng.choice(['direct'] * 30 + ['binding'] * 40 + ['nongeneric'] * 8 + ['direct_after_alias'] * 6 + ['other'] * 14
-                      + ['binding_foreign'] * 8 + ['chain'] * 10)
+                      + ['binding_foreign'] * 8 + ['chain'] * 10 + ['nongeneric_foreign'] * 4 + ['mro_foreign'] * 4)
     case = {'stream': 'tv', 'op': rng.choice([0, 0, 0, 1]), 'in_init': False, 'args': None}
     if kind == 'direct':
         c = direct_class(tvs)
@@ -357,6 +359,33 @@ def gen_tv(rng, tier):
         c = sub_levels(c, rng.choice([0, 0, 0, 1]))
         case['in_init'] = rng.random() < 0.2
         case['shape'], case['full'] = ['binding', tvs, [mapping[t] for t in tvs]], True
+    elif kind == 'nongeneric_foreign':
+        # neither Generic[..] nor a parametrised base that uses the mixin, but a foreign parametrised base
+        # (region of the open finding K-C20-nongeneric-foreign-base)
+        bases = plains(rng.choice([0, 1]))
+        if rng.random() < 0.6:
+            bases.append(['builtin', 'list', [20 + rng.randrange(12)]])
+        else:
+            tvf = rng.sample(range(8), 1)
+            bases.append(['alias', direct_class(tvf, mixin=False), [20 + rng.randrange(12)]])
+        rng.shuffle(bases)
+        bases.insert(rng.randrange(len(bases) + 1), ['mixin'])
+        c = nid()
+        classes.append({'id': c, 'bases': bases})
+        case['binding_cls'] = c
+        case['shape'], case['full'] = ['nongeneric'], 2
+    elif kind == 'mro_foreign':
+        # on the MRO a subclass of a foreign parametrised base stands in front of the class that binds the parameters
+        # (region of the open finding K-C20-foreign-subclass-first-on-mro)
+        b = direct_class(tvs)
+        extra = nid()
+        classes.append({'id': extra, 'bases': plains(rng.choice([0, 1])) + [['builtin', 'list', [20 + rng.randrange(12)]]]})
+        sb = nid()
+        classes.append({'id': sb, 'bases': [['alias', b, args]] + plains(rng.choice([0, 1]))})
+        c = nid()
+        classes.append({'id': c, 'bases': plains(rng.choice([0, 1])) + [['plain', extra], ['plain', sb]]})
+        case['binding_cls'] = sb
+        case['shape'], case['full'] = ['binding', tvs, args], 2
     elif kind == 'nongeneric':
         c = nid()
         bases = plains(rng.choice([0, 1, 2]))
@@ -393,6 +422,10 @@ def gen_tv(rng, tier):
             else:
                 c = nid()
                 classes.append({'id': c, 'bases': [['alias', m, args]]})
+    if case['shape'] == ['other'] and case['args'] is None and kind == 'other' and how in ('forward', 'partial') and len(classes) and \
+            any(b[0] == 'alias' and any(t < 20 for t in b[2]) for b in next(cl for cl in classes if cl['id'] == c)['bases']):
+        # an unparametrised instance of a forwarding / partially binding class (open finding K-C20-unparametrised-forwarding)
+        case['shape'], case['full'] = ['direct', tvs, None], 2
     case['classes'] = classes
     case['inst'] = c
     return case
@@ -427,7 +460,7 @@ def gen_dm(rng, tier):
         used = set()
         for _ in range(n):
             kind = rng.choice(['plain'] * 40 + ['async'] * 12 + ['class'] * 8 + ['static'] * 8 + ['prop'] * 8 + ['attr'] * 5
-                              + ['alias'] * 5 + ['prop_raise'] * 1 + ['attr_obj'] * 2)
+                              + ['alias'] * 5 + ['prop_raise'] * 1 + ['cprop_raise'] * 1 + ['attr_obj'] * 2)
             pool = [x for x in names if x not in used]
             if allow_dunder and kind in ('plain', 'async') and rng.random() < 0.12:
                 pool = [x for x in DUNDER_NAMES + ['__p1', '__p2'] if x not in used]
@@ -444,6 +477,8 @@ def gen_dm(rng, tier):
                 else:
                     t = rng.choice(targets)
                     d.update(target=t['name'], id=t['id'])
+            if kind == 'cprop_raise':
+                d['inner'], d['outer'] = [], []
             if kind in ('plain', 'async', 'class', 'static', 'prop'):
                 d['inner'] = decos()
                 d['outer'] = []
@@ -569,10 +604,10 @@ def read_dm_model(m, n_members):
         k = rd.one()
         p = rd.take(2 * k)
         demanded.append(sorted(zip(p[0::2], p[1::2])))
-    claimed, no_dd, m_ok = rd.take(3)
+    in_dom, no_raise, no_dd, m_ok = rd.take(4)
     nj = rd.one()
     journal = [rd.take(5) for _ in range(nj)]
-    return res, demanded, bool(claimed), True, bool(no_dd), bool(m_ok), journal
+    return res, demanded, bool(in_dom), bool(no_raise), bool(no_dd), bool(m_ok), journal
 
 
 def split_result(out):
@@ -592,7 +627,7 @@ def expected_journal(c, eff_ids):
     out = []
     for cl in c['classes']:
         for d in cl.get('defs', []):
-            if d['kind'] in ('alias', 'attr', 'attr_obj', 'prop_raise'):
+            if d['kind'] in ('alias', 'attr', 'attr_obj', 'prop_raise', 'cprop_raise'):
                 continue
             if d['id'] not in eff_ids:
                 continue
@@ -681,7 +716,7 @@ def shrink_candidates(c, bad):
     if not bad['other']:
         return out
     # the raising properties alone
-    rp = [(cl, d) for cl in c['classes'] for d in cl.get('defs', []) if d['kind'] == 'prop_raise']
+    rp = [(cl, d) for cl in c['classes'] for d in cl.get('defs', []) if d['kind'] == 'cprop_raise']
     if rp:
         out.append({'stream': 'dm', 'members': c['members'][:1], 'inst': 10, 'param': True,
                     'classes': [{'id': 10, 'name': 'K', 'bases': [['wdm', 'enum']],
@@ -695,7 +730,7 @@ def shrink_candidates(c, bad):
         for d in cl.get('defs', []):
             if d['kind'] in KIND_OF and (d.get('inner') or d.get('outer')) and mangle(cname, d['name']).startswith('__'):
                 cut = True
-            elif d['kind'] != 'prop_raise':
+            elif d['kind'] != 'cprop_raise':
                 keep.append(d)
         names = {d['name'] for d in keep}
         keep = [d for d in keep if d['kind'] != 'alias' or d['target'] in names]
@@ -751,8 +786,43 @@ def chain_kind(case):
     return None
 
 
+def region2(case):
+    """tv cases of the regions of the findings about the AssertionError clauses and the MRO"""
+    by = {cl['id']: cl for cl in case.get('classes', [])}
+
+    def uses_mixin(cl, depth=0):
+        return depth < 10 and any(b[0] == 'mixin' or (b[0] in ('plain', 'alias') and b[1] in by and uses_mixin(by[b[1]], depth + 1))
+                                  for b in cl['bases'])
+
+    def foreign(b):
+        return b[0] == 'builtin' or (b[0] == 'alias' and b[1] in by and not uses_mixin(by[b[1]]))
+    inst = by.get(case.get('inst'))
+    if not inst:
+        return None
+    if case.get('shape') == ['nongeneric'] and any(foreign(b) for b in inst['bases']) \
+            and not any(b[0] == 'generic' or (b[0] == 'alias' and not foreign(b)) for b in inst['bases']):
+        return 'nongeneric_foreign'
+    if case.get('args') is None and not any(b[0] == 'generic' for b in inst['bases']) and \
+            any(b[0] == 'alias' and not foreign(b) and any(t < 20 for t in b[2]) for b in inst['bases']):
+        return 'unparam_forwarding'
+    seen_foreign_sub = False
+    for b in inst['bases']:
+        if b[0] == 'plain' and b[1] in by:
+            o = by[b[1]]
+            if any(foreign(x) for x in o['bases']) and not any(x[0] in ('generic', 'mixin') or (x[0] == 'alias' and not foreign(x)) for x in o['bases']):
+                seen_foreign_sub = True
+            elif uses_mixin(o):
+                return 'mro_foreign' if seen_foreign_sub else None
+    return None
+
+
 def known_matcher(finding, case):
     mid = finding.get('matcher', {}).get('id')
+    if case.get('stream') == 'tv' and mid in ('nongeneric_with_foreign_parametrised_base', 'unparametrised_instance_of_forwarding_class',
+                                              'subclass_of_foreign_parametrised_base_first_on_mro'):
+        return region2(case) == {'nongeneric_with_foreign_parametrised_base': 'nongeneric_foreign',
+                                 'unparametrised_instance_of_forwarding_class': 'unparam_forwarding',
+                                 'subclass_of_foreign_parametrised_base_first_on_mro': 'mro_foreign'}[mid]
     if case.get('stream') == 'tv':
         if mid in ('binding_base_is_forwarding_class', 'binding_base_is_partially_binding_class'):
             return chain_kind(case) == {'binding_base_is_forwarding_class': 'forwarding', 'binding_base_is_partially_binding_class': 'partial'}[mid]
@@ -765,9 +835,9 @@ def known_matcher(finding, case):
         # every decorated definition of the (shrunk) case is a method whose dir() name starts with two underscores
         return bool(decorated) and all(d['kind'] in ('plain', 'async', 'class', 'static')
                                        and mangle(cl.get('name') or 'K', d['name']).startswith('__') for cl, d in decorated)
-    if mid == 'only_raising_properties':
-        # the (shrunk) class body consists of properties whose getter raises, nothing is decorated
-        return bool(defs) and not decorated and all(d['kind'] == 'prop_raise' and not d['name'].startswith('__') for _, d in defs)
+    if mid == 'only_raising_descriptors':
+        # the (shrunk) class body consists of cached properties whose function raises, nothing is decorated
+        return bool(defs) and not decorated and all(d['kind'] == 'cprop_raise' and not d['name'].startswith('__') for _, d in defs)
     return False
 
 
@@ -838,11 +908,11 @@ def run(tier, seed, replay=None):
                 nontrivial = len(c['classes']) >= 2
                 if g:
                     glue.append({'case': c, 'what': g})
-                if not m_meets:
+                if not m_meets and c.get('full') != 2:      # full = 2: regions of refuted statements
                     meets_fail.append({'case': c, 'model': m})
             else:
                 corr, prop, what, claimed, no_dd, m_ok, bad, no_raise = judge_dm(c, r, m)     # no_dd: outside every known-finding region
-                label = ('claimed' if claimed else 'near-miss') + ('' if no_raise else '+raising-property') + \
+                label = ('claimed' if claimed else 'near-miss') + ('' if no_raise else '+raising-descriptor') + \
                         ('' if no_dd or not no_raise else '+dunder') + ('' if c['param'] else '/unparam')
                 outc = {0: 'result', 1: 'raise', 2: 'value', 3: 'class-body-raise'}[r['out'][0]]
                 key = json.dumps([c['members'], c['classes']])
